@@ -5,6 +5,7 @@ from sa.algebra import Rat, Translator, AlgebraError, parse_expr
 from sa.srcmodel import own_nodes, dotted, positional_params, func_params, clone
 from sa.report import AnalysisError
 from sa.pattern import has, flat
+from sa.extract import single_assignments, inline
 
 EXPLANATION = (
     "The property is about data content, so only the plumbing is decided. (1) count_data_dict is executed abstractly, once per "
@@ -962,9 +963,9 @@ def check_parsers(rep, prog):
                     if sl.step is None and isinstance(sl.lower, ast.Constant) and sl.upper is not None and RF.flat(ev(sl.upper)) == {'A2'} and isinstance(sl.upper, ast.Name):
                         return {'columns %s..A2' % sl.lower.value}
                     return None
-                # constant + A2 + loop variable, in any order
+                # constant + A2 + loop variable, in any order; named offsets (`calls2_start = allele2_index + 1`) are written out first
                 consts, names, a2 = 0, [], 0
-                stack = [sl]
+                stack = [inline(sl, {k_: v_ for k_, v_ in single_assignments(f2).items() if isinstance(v_, (ast.Constant, ast.BinOp, ast.Name))}, depth=3)]
                 while stack:
                     x_ = stack.pop()
                     if isinstance(x_, ast.BinOp) and isinstance(x_.op, ast.Add):
